@@ -358,3 +358,251 @@ TRUSTED_BASE = [
     'hand-written Gallina model validated against the implementation only on the cases the correspondence ran',
     'rustc/cargo, harness/ (dump.rs serialiser, case runner), tools/*.py (generators, diff)',
 ]
+
+
+# ---------------------------------------------------------------- generic check driver
+def shrink_case(sub, case, still_fails, budget=60):
+    """Delta-debugging on the history tokens (then nothing else): returns a smaller failing case."""
+    hist = list(case['hist'])
+    t0 = time.time()
+    n = 2
+    tries = 0
+    while len(hist) >= 2 and time.time() - t0 < budget and tries < 40:
+        chunk = max(1, len(hist) // n)
+        reduced = False
+        cands = []
+        for i in range(0, len(hist), chunk):
+            h2 = hist[:i] + hist[i + chunk:]
+            if h2:
+                cands.append(h2)
+        if not cands:
+            break
+        cs = [dict(case, id='shr%d' % k, hist=h2) for k, h2 in enumerate(cands)]
+        tries += 1
+        res = run_both(sub, cs, 'shrink', shards=min(NPROC, len(cs)), timeout=120)
+        for k, h2 in enumerate(cands):
+            it, mt = res['shr%d' % k]
+            if still_fails(dict(case, hist=h2), it, mt):
+                hist = h2
+                n = max(n - 1, 2)
+                reduced = True
+                break
+        if not reduced:
+            if chunk == 1:
+                break
+            n = min(n * 2, len(hist))
+    return dict(case, hist=hist)
+
+
+def case_text(case, it=None, mt=None, note=''):
+    s = ['# ' + note] if note else []
+    s.append('CASE %s' % case['id'])
+    lines = case['cfg'].split('\n')
+    s.append('CFG %d' % len(lines))
+    s += lines
+    for name, content in (case.get('files') or {}).items():
+        ls = content.split('\n')
+        s.append('FILE %s %d' % (name, len(ls)))
+        s += ls
+    s.append('H ' + ' '.join(case['hist']))
+    s.append('END')
+    if it is not None:
+        s.append('# --- implementation trace')
+        s += ['# ' + l for l in it]
+    if mt is not None:
+        s.append('# --- model trace')
+        s += ['# ' + l for l in mt]
+    return '\n'.join(s) + '\n'
+
+
+def run_check(spec, tier, seed):
+    """Generic flow of a check (DESIGN 2.5).  Returns the process exit code."""
+    import random
+    pid = spec['id']
+    t0 = time.time()
+    broken = []          # (what, detail)
+    n_thm, ass = 0, []
+    tinfo = {}
+    try:
+        tinfo = translator()
+    except BuildBroken as e:
+        broken.append(('translator:' + e.what, e.detail))
+    coq_ok = False
+    if not broken:
+        try:
+            coq_make()
+            bad = scan_forbidden()
+            if bad:
+                raise BuildBroken('forbidden-construct', '\n'.join(bad))
+            n_thm, ass = coq_props(pid)
+            coq_ok = True
+        except BuildBroken as e:
+            broken.append((e.what, e.detail))
+        except subprocess.TimeoutExpired:
+            broken.append(('theorem:timeout', 'coq build timed out'))
+    harness_ok = False
+    try:
+        build_harness()
+        harness_ok = True
+    except BuildBroken as e:
+        broken.append((e.what, e.detail))
+    driver_ok = False
+    if coq_ok or os.path.exists(DRIVER_BIN):
+        try:
+            if coq_ok:
+                build_driver()
+            driver_ok = os.path.exists(DRIVER_BIN)
+        except BuildBroken as e:
+            broken.append((e.what, e.detail))
+    if tier == 'thorough' and coq_ok:
+        try:
+            rc, out = sh(['coqchk', '-silent', '-o', '-Q', 'theories', 'KV', 'KV.Props.' + pid], cwd=COQ, timeout=3000)
+            if rc != 0:
+                broken.append(('theorem:coqchk', out[-2000:]))
+            else:
+                m = re.search(r'\* Axioms:\s*(.*?)(\n\s*\*|\Z)', out, re.S)
+                if m and '<none>' not in m.group(1):
+                    broken.append(('theorem:coqchk-axioms', m.group(1)[:1000]))
+        except subprocess.TimeoutExpired:
+            broken.append(('theorem:coqchk-timeout', ''))
+
+    rng = random.Random(seed * 1000003 + int(hashlib.sha1(pid.encode()).hexdigest()[:6], 16))
+    stats = {'evaluations': 0, 'agree': 0, 'mismatch': 0, 'parse_rejected': 0, 'nontrivial': set(), 'oracle_checked': 0,
+             'impl_crash': 0, 'unsupported': 0}
+    samples = []
+    mismatches = []
+    oracle_viol = []
+    dist = {}
+    if harness_ok:
+        cases = list(spec.get('corpus', lambda: [])()) + list(spec['gen_cases'](rng, tier))
+        byid = {c['id']: c for c in cases}
+        groups = {}
+        for c in cases:
+            groups.setdefault(c.get('sub', spec.get('sub', 'lsim')), []).append(c)
+        for sub, cs in groups.items():
+            if driver_ok:
+                res = run_both(sub, cs, pid + '-' + sub)
+            else:
+                res = run_both(sub, cs, pid + '-' + sub)  # model output will be missing; impl traces still usable
+            for c in cs:
+                it, mt = res[c['id']]
+                stats['evaluations'] += 1
+                for k, v in (c.get('tags') or {}).items():
+                    dist.setdefault(k, {}).setdefault(str(v), 0)
+                    dist[k][str(v)] += 1
+                if it and it[0].startswith('PARSE-'):
+                    stats['parse_rejected'] += 1
+                    if spec.get('parse_oracle'):
+                        r = spec['parse_oracle'](c, it)
+                        if r:
+                            oracle_viol.append((c, it, mt, r))
+                    continue
+                if mt and mt[0].startswith('UNSUPPORTED'):
+                    stats['unsupported'] += 1
+                elif driver_ok:
+                    if same_trace(it, mt):
+                        stats['agree'] += 1
+                    else:
+                        stats['mismatch'] += 1
+                        mismatches.append((c, it, mt))
+                if is_crash(it):
+                    stats['impl_crash'] += 1
+                if spec.get('oracle'):
+                    stats['oracle_checked'] += 1
+                    r = spec['oracle'](c, it)
+                    if r:
+                        oracle_viol.append((c, it, mt, r))
+                if spec.get('nontrivial', lambda c, it: True)(c, it):
+                    stats['nontrivial'].add(hashlib.sha1(('\n'.join(it or []) + c['cfg']).encode()).hexdigest())
+                if len(samples) < 3 and it and not it[0].startswith('PARSE-'):
+                    samples.append({'cfg': c['cfg'], 'history': ' '.join(c['hist'])[:400], 'impl_trace': it[:8]})
+
+    known = load_known_findings()
+    known_open = [k for k in known.get('open', []) if k.get('property') == pid]
+
+    def is_known(c, it, why):
+        for k in known_open:
+            pat = k.get('match', {})
+            if 'cfg_regex' in pat and not re.search(pat['cfg_regex'], c['cfg']):
+                continue
+            if 'why_regex' in pat and not re.search(pat['why_regex'], why or ''):
+                continue
+            return k
+        return None
+
+    wall = time.time() - t0
+    violations = 0
+    lines = []
+    # 1. oracle violations on the implementation: concrete failing inputs
+    seen_known = set()
+    for (c, it, mt, why) in oracle_viol:
+        k = is_known(c, it, why)
+        if k:
+            seen_known.add(k['class'])
+            continue
+        violations += 1
+        if violations <= 3:
+            c2 = c
+            p = write_replay(pid, '%s.case' % hashlib.sha1((c['cfg'] + ' '.join(c['hist'])).encode()).hexdigest()[:12],
+                             case_text(c2, it, mt, 'property oracle: ' + why))
+            lines.append('VIOLATION property=%s replay=%s' % (pid, p))
+    # 2. correspondence mismatches
+    if not violations and mismatches:
+        c, it, mt = mismatches[0]
+        try:
+            sub = c.get('sub', spec.get('sub', 'lsim'))
+            c = shrink_case(sub, c, lambda cc, i2, m2: i2 is not None and not (i2 and i2[0].startswith('PARSE-')) and not same_trace(i2, m2))
+            r = run_both(sub, [dict(c, id='final')], 'shrink', shards=1, timeout=120)
+            it, mt = r['final']
+        except Exception:
+            pass
+        why = None
+        if spec.get('oracle'):
+            why = spec['oracle'](c, it)
+        k = is_known(c, it, why or 'correspondence')
+        if k:
+            seen_known.add(k['class'])
+        else:
+            violations += 1
+            note = 'correspondence model/implementation differs (%d of %d cases)' % (len(mismatches), stats['evaluations'])
+            if why:
+                note += '; property oracle: ' + why
+            p = write_replay(pid, 'corr-%s.case' % hashlib.sha1((c['cfg'] + ' '.join(c['hist'])).encode()).hexdigest()[:12],
+                             case_text(c, it, mt, note))
+            lines.append('VIOLATION property=%s replay=%s%s' % (pid, p, '' if (why or is_crash(it)) else ' no-failing-input-found'))
+    # 3. broken proof / translator / build with nothing concrete found
+    if not violations and broken:
+        violations += 1
+        txt = 'broken obligations for %s (no failing input found by the search over %d cases):\n' % (pid, stats['evaluations'])
+        for what, detail in broken:
+            txt += '\n== %s\n%s\n' % (what, detail)
+        p = write_replay(pid, 'broken-%s.txt' % re.sub(r'[^A-Za-z0-9_.-]', '_', broken[0][0])[:60], txt)
+        lines.append('VIOLATION property=%s replay=%s no-failing-input-found' % (pid, p))
+    for k in known_open:
+        if k['class'] in seen_known or k.get('always_print'):
+            print('KNOWN-FINDING: property=%s %s' % (pid, k['what']))
+    coverage = {
+        'obligations': max(n_thm, 1) if coq_ok else max(n_thm, 1),
+        'discharged': n_thm if coq_ok else 0,
+        'checker_cmd': 'tools/gen_tables.py && make -C coq (coqc 8.16.1, full .vo) && coqc Props/%s.v (Print Assumptions parsed)%s'
+                       % (pid, ' && coqchk -o' if tier == 'thorough' else ''),
+        'trusted_base': TRUSTED_BASE + spec.get('trusted_extra', []),
+        'theorems': [{'name': t, 'assumptions': r} for t, r in ass],
+        'translator': tinfo,
+        'evaluations': stats['evaluations'],
+        'distinct_nontrivial': len(stats['nontrivial']),
+        'rule': spec.get('rule', ''),
+        'samples': samples or [{'note': 'no case ran'}],
+        'traces_validated_against_impl': stats['agree'],
+        'correspondence': {k: (v if not isinstance(v, set) else len(v)) for k, v in stats.items()},
+        'input_distribution': dist,
+        'broken': [b[0] for b in broken],
+        'explanation': spec.get('explanation', ''),
+    }
+    write_evidence(pid, tier, seed, 'proof', coverage, wall, violations, spec.get('assumptions', []))
+    for l in lines:
+        print(l)
+    print('%s: tier=%s theorems=%d/%d cases=%d agree=%d mismatch=%d parse_rejected=%d nontrivial=%d wall=%.1fs'
+          % (pid, tier, n_thm if coq_ok else 0, n_thm, stats['evaluations'], stats['agree'], stats['mismatch'],
+             stats['parse_rejected'], len(stats['nontrivial']), wall))
+    return 1 if violations else 0
